@@ -36,6 +36,7 @@ def make_parser(variant, eoe, workdir):
     p.add_argument("--dc", type=zoo.Outer, default=zoo.Outer())
     p.add_argument("--odc", type=Optional[zoo.Point])
     p.add_class_arguments(zoo.SubB, "grp")
+    p.add_class_arguments(zoo.WithOptDC, "wod")
     if variant["links"]:
         p.add_argument("--src", type=int, default=2)
         p.add_argument("--dst", type=int)
@@ -66,7 +67,7 @@ GOOD_ARGV = [
     [], ["--i=3"], ["--s", "x", "--l+=4"], ["--d.k=2"], ["--model=SubB", "--model.c=0.25"], ["--model=vf.fixtures.zoo.SubA", "--model.a=7"], ["--model.init_args.a=9"],
     ["--model_ema=SubA"], ["--model_ema.init_args.c=0.5"], ["--opt=SubA", "--opt.b=zz"], ["--opt.init_args.a=4"], ["--dc.inner.name=nn", "--dc.count=4"], ["--odc.x=3"], ["--odc", '{"x": 1, "y": 2.0}'],
     ["--grp.c=0.125"], ["--cfg", '{"i": 9, "model": {"class_path": "vf.fixtures.zoo.SubB"}}'], ["--cfg", '{"opt": {"class_path": "vf.fixtures.zoo.SubReq", "init_args": {"need": 1}}}'],
-    ["--model=SubA", "--model=SubB"], ["--opt=SubList", "--opt.items=[1]"], ["--cfg", "CFGFILE"], ["--model", '{"init_args": {"a": 3}}'],
+    ["--model=SubA", "--model=SubB"], ["--opt=SubList", "--opt.items=[1]"], ["--wod.d.x=5", "--wod.d.y=2.5"], ["--wod.d", '{"y": 3.0}'], ["--wod.d.y=4.0"], ["--cfg", "CFGFILE"], ["--model", '{"init_args": {"a": 3}}'],
 ]
 BAD_ARGV = [
     ["--i=x"], ["--zz=1"], ["--model=Unrelated"], ["--model=vf.fixtures.zoo.BadDefault"], ["--opt=BadDefault"], ["--model.init_args.zz=1"], ["--cfg", '{"i": "x"}'], ["--cfg", "{"], ["--cfg", "/no/such.yaml"],
@@ -77,7 +78,7 @@ EXIT0_ARGV = [["--help"], ["--print_config"], ["--print_config=skip_default"], [
 SUB_ARGV = [["s1"], ["s1", "--o=5"], ["s2", "--q=z"], ["s1", "--m=SubB"], ["s1", "--print_config"], ["s1", "--o=x"], ["s1", "--print_config", "--o=x"], ["s1", "--help"], ["s1", "--cfg", '{"o": 7}'], ["s1", "--m=BadDefault"], ["--i=2", "s2"]]
 OBJECTS = [
     {"i": 4}, {"model": {"init_args": {"a": 8}}}, {"opt": {"init_args": {"a": 2}}}, {"model": {"class_path": "vf.fixtures.zoo.SubB", "init_args": {"c": 0.5}}}, {"dc": {"count": 7}}, {"odc": {"x": 5}},
-    {"i": "x"}, {"zz": 1}, {"model": {"class_path": "vf.fixtures.zoo.BadDefault"}}, {"model": {"init_args": {"zz": 1}}}, {"opt": {"class_path": "vf.fixtures.zoo.SubA", "init_args": {"b": "k"}}}, {"model_ema": {"init_args": {"a": 1}}},
+    {"wod": {"d": {"y": 7.0}}}, {"wod": {"d": {"x": 6}}}, {"i": "x"}, {"zz": 1}, {"model": {"class_path": "vf.fixtures.zoo.BadDefault"}}, {"model": {"init_args": {"zz": 1}}}, {"opt": {"class_path": "vf.fixtures.zoo.SubA", "init_args": {"b": "k"}}}, {"model_ema": {"init_args": {"a": 1}}},
 ]
 ENVS = [{}, {"APP_I": "6"}, {"APP_I": "x"}, {"APP_MODEL": "SubB"}, {"APP_CFG": '{"s": "env"}'}, {"APP_CFG": "{"}, {"APP_MODEL": "BadDefault"}]
 
